@@ -82,7 +82,7 @@ class IgraphSpy:
     igraph.Graph, inherited from GraphBase) returns, before pyunicorn post-processes it"""
 
     def __init__(self, name):
-        self.name, self.edges, self.vcount = name, [], []
+        self.name, self.edges, self.vcount, self.calls = name, [], [], []
 
     def __enter__(self):
         import igraph
@@ -93,6 +93,7 @@ class IgraphSpy:
 
         def wrapper(*a, **k):
             g = orig(*a, **k)
+            self.calls.append((tuple(a), dict(k)))
             self.edges.append([tuple(map(int, e)) for e in g.get_edgelist()])
             self.vcount.append(int(g.vcount()))
             return g
@@ -105,6 +106,19 @@ class IgraphSpy:
         else:
             delattr(self.G, self.name)
         return False
+
+
+def igraph_call(call, names, defaults):
+    """positional arguments of a recorded igraph call mapped to their names, default-valued options
+    dropped (so that `Erdos_Renyi(n, m=L)` and `Erdos_Renyi(n=n, m=L, directed=False)` are the same call)"""
+    a, k = call
+    d = dict(zip(names, a))
+    d.update(k)
+    return {k_: v_ for k_, v_ in d.items() if not (k_ in defaults and v_ == defaults[k_])}
+
+
+ER_NAMES, ER_DEFAULTS = ("n", "p", "m", "directed", "loops"), {"directed": False, "loops": False}
+WS_NAMES, WS_DEFAULTS = ("dim", "size", "nei", "p", "loops", "multiple"), {"loops": False, "multiple": False}
 
 
 class PairStream:
@@ -341,10 +355,13 @@ def run(ctx):
                 "non-trivial = at least one rewiring / link placement actually happened "
                 "(generators: at least one link)")
     ctx.trusted = common.DEFAULT_TRUSTED + [
-        "igraph generators and Graph.rewire (ErdosRenyi, Configuration, WattsStrogatz, BarabasiAlbert_igraph, "
-        "randomly_rewire): not modelled, their documented invariants are checked on outputs only",
-        "float32 arithmetic of the rewiring conditions is exact on the generated data "
-        "(distances and tolerances are multiples of 1/4 below 2^10)",
+        "igraph generators and Graph.rewire (Erdos_Renyi, Degree_Sequence, Watts_Strogatz, Barabasi, rewire): "
+        "trusted; the contracts the theorems use (simple graph with the requested number of links / incidence "
+        "counts) are checked on every call, pyunicorn's part (dispatch, simplify, adjacency read-out, "
+        "set_edge_list) is modelled and proved",
+        "the C compiler evaluates `a - b` on float operands as one IEEE binary32 subtraction and numpy `u * E` "
+        "as one binary64 multiplication (compared on every run with rnd32 / rnd64, which are proved to be "
+        "round-to-nearest-even)",
     ]
     ctx.proofs()
 
@@ -531,11 +548,16 @@ def run(ctx):
             return np.float32((1 + rng.randrange(2 ** 23) / 2.0 ** 23) * 2.0 ** rng.randrange(-3, 27))
         if kind == "near-2^24":
             return np.float32(rng.choice([16777216.0, 16777218.0, 33554432.0, 1.0, 3.0, 0.5]) + rng.randrange(0, 8))
+        if kind == "overflow":
+            # round 5: entries of both signs near the top of the binary32 range — differences overflow to
+            # +-inf in hardware (`fabsf(inf) < eps` is false); theorem binary32_overflow_rejected
+            return np.float32(rng.choice([-1.0, 1.0]) * (1 + rng.randrange(2 ** 23) / 2.0 ** 23)
+                              * 2.0 ** rng.choice([127, 127, 126, 125]))
         return np.float32(rng.choice([2.0 ** -140 * rng.randrange(1, 1000), 2.0 ** 100 * (1 + rng.random()),
                                       rng.uniform(0, 4)]))
 
     def f32_matrix(n):
-        kind = rng.choice(["uniform", "mixed-exponents", "mixed-exponents", "near-2^24", "tiny+huge"])
+        kind = rng.choice(["uniform", "mixed-exponents", "mixed-exponents", "near-2^24", "tiny+huge", "overflow"])
         D = np.zeros((n, n), dtype=np.float32)
         for i in range(n):
             for j in range(i):
@@ -548,9 +570,15 @@ def run(ctx):
         # tolerance: on / next to the boundary of `<` for some difference as binary32 computes it
         cells = [(i, j) for i in range(n) for j in range(n) if i != j]
         (a, b), (c_, d) = rng.choice(cells), rng.choice(cells)
-        z = np.abs(np.float32(D[a, b] - D[c_, d]))
+        with np.errstate(all="ignore"):
+            z = np.abs(np.float32(D[a, b] - D[c_, d]))
         ek = rng.choice(["boundary", "next-up", "next-down", "value", "huge"])
-        if ek == "huge" or not np.isfinite(z) or z == 0:
+        if not np.isfinite(z):
+            ctx.count("geo:f32:the probed difference overflows to inf")
+        if kind == "overflow":
+            eps = rng.choice([np.finfo(np.float32).max, np.float32(2.0 ** 127), abs(f32_value(kind)),
+                              np.float32(2.0 ** 120)])
+        elif ek == "huge" or not np.isfinite(z) or z == 0:
             eps = np.float32(2.0 ** 120) if ek == "huge" else f32_value(kind)
         elif ek == "boundary":
             eps = z
@@ -562,8 +590,11 @@ def run(ctx):
             eps = f32_value(kind)
         if not (eps > 0 and np.isfinite(eps)):
             eps = np.float32(1.0)
-        inexact = any(Fraction(float(np.float32(D[i, j] - D[k_, l_]))) != Fraction(float(D[i, j])) - Fraction(float(D[k_, l_]))
-                      for (i, j) in cells[:12] for (k_, l_) in cells[:12])
+        with np.errstate(all="ignore"):
+            inexact = any(not np.isfinite(np.float32(D[i, j] - D[k_, l_]))
+                          or Fraction(float(np.float32(D[i, j] - D[k_, l_])))
+                          != Fraction(float(D[i, j])) - Fraction(float(D[k_, l_]))
+                          for (i, j) in cells[:12] for (k_, l_) in cells[:12])
         ctx.count(f"geo:f32:D={kind}:eps={ek}")
         ctx.count("geo:f32:" + ("some differences are rounded" if inexact else "all sampled differences exact"))
         den, ints = units(list(D.flatten()) + [eps])
@@ -626,22 +657,27 @@ def run(ctx):
             if not completed:
                 break
     # the two roundings themselves, against the hardware: binary32 subtraction, binary64 `u * E`
-    xs, got = [], []
+    xs, got, ovf = [], [], []
     for _ in range(300 if quick else 3000):
-        kind = rng.choice(["uniform", "mixed-exponents", "near-2^24", "tiny+huge"])
+        kind = rng.choice(["uniform", "mixed-exponents", "near-2^24", "tiny+huge", "overflow"])
         x, y = f32_value(kind), f32_value(kind)
         if rng.random() < 0.3:
             y = -y
         with np.errstate(all="ignore"):
             z = np.float32(x - y)
-        if not np.isfinite(z):
-            continue
         exact = Fraction(float(x)) - Fraction(float(y))
+        if not np.isfinite(z):
+            ovf.append(int(exact * 2 ** 149))
+            ctx.count("rnd32:overflow (hardware inf)")
+            continue
         xs.append(int(exact * 2 ** 149))
         got.append(int(Fraction(float(z)) * 2 ** 149))
         ctx.count("rnd32:" + ("rounded" if Fraction(float(z)) != exact else "exact"))
     reqs.append("rnd32 " + ",".join(map(str, xs)))
     impl.append(",".join(map(str, got)))
+    # where the hardware overflows the model's value is beyond every finite binary32 number
+    reqs.append("rnd32ovf " + (",".join(map(str, ovf)) or "-"))
+    impl.append(",".join("1" for _ in ovf) or "-")
     for _ in range(40 if quick else 400):
         E = rng.choice([1, 2, 3, 7, 2 ** 31 - 1, 2 ** 30 + 1, 2 ** 24 + 1, rng.randrange(1, 2 ** 31), rng.randrange(1, 300)])
         ks = []
@@ -659,9 +695,74 @@ def run(ctx):
         ctx.count("drawD:" + ("E>=2^24" if E >= 2 ** 24 else "small-E"))
         if any(o != (k * E) // 2 ** 53 for o, k in zip(outs, ks)):
             ctx.count("drawD:rounding changed the index (floor(fl(u*E)) != floor(u*E))")
+    # round 5: `rnd64` / `rndQ 24` on arguments that are NOT on the grid of the format (quotients of
+    # doubles / of binary32 numbers, p/q with odd q), against three independent correctly rounded
+    # operations: hardware binary64 division and multiplication, hardware binary32 division, and
+    # CPython's int/int true division
+    def fr(v):
+        return Fraction(float(v))
+
+    def sr(q):
+        return str(q.numerator) if q.denominator == 1 else f"{q.numerator}/{q.denominator}"
+
+    def f64_value():
+        k = rng.choice(["unit", "int", "wide", "subnormal", "53bit"])
+        if k == "unit":
+            return rng.randrange(2 ** 53) / 2.0 ** 53
+        if k == "int":
+            return float(rng.randrange(1, 2 ** 31))
+        if k == "wide":
+            return float(np.ldexp(rng.randrange(1, 2 ** 53), rng.randrange(-200, 200)))
+        if k == "subnormal":
+            return float(np.ldexp(float(rng.randrange(1, 2 ** 20)), -1074))
+        return float(rng.randrange(2 ** 52, 2 ** 53))
+    q64, g64, q32, g32 = [], [], [], []
+    for _ in range(200 if quick else 2000):
+        op = rng.choice(["div", "div", "mul", "pq", "tie", "sub-quot"])
+        if op in ("div", "mul", "sub-quot"):
+            a, b = f64_value(), f64_value()
+            if rng.random() < 0.3:
+                a = -a
+            if op == "sub-quot":      # results in the subnormal range: grid step 2^-1074, ties possible
+                a, b = float(np.ldexp(rng.randrange(1, 2 ** 12), -1074)), float(rng.choice([2, 3, 4, 5, 7, 8]))
+            with np.errstate(all="ignore"):
+                z = np.float64(a) / np.float64(b) if op != "mul" else np.float64(a) * np.float64(b)
+            exact = fr(a) / fr(b) if op != "mul" else fr(a) * fr(b)
+            if not np.isfinite(z):
+                continue
+        elif op == "pq":
+            pn, qd = rng.randrange(-2 ** 70, 2 ** 70), rng.choice([3, 5, 7, 10, 2 ** 60 + 1, rng.randrange(1, 2 ** 40)])
+            z, exact = pn / qd, Fraction(pn, qd)          # CPython: correctly rounded
+        else:                                             # exact ties between neighbouring doubles
+            m, e = rng.randrange(2 ** 52, 2 ** 53), rng.randrange(1, 40)
+            exact = Fraction(2 * m + 1, 2) * 2 ** e * rng.choice([1, -1])
+            z = exact.numerator / exact.denominator
+        q64.append(sr(exact))
+        g64.append(sr(fr(z)))
+        ctx.count(f"rnd64:{op}:" + ("rounded" if fr(z) != exact else "exact")
+                  + (":off-grid" if (exact * 2 ** 1074).denominator != 1 else ""))
+    for _ in range(150 if quick else 1500):
+        a, b = f32_value(rng.choice(["uniform", "mixed-exponents", "near-2^24"])), \
+            f32_value(rng.choice(["uniform", "mixed-exponents", "near-2^24"]))
+        if float(b) == 0.0:
+            continue
+        with np.errstate(all="ignore"):
+            z = np.float32(a) / np.float32(b)
+        if not np.isfinite(z):
+            continue
+        exact = fr(a) / fr(b)
+        q32.append(sr(exact))
+        g32.append(sr(fr(z)))
+        ctx.count("rnd32q:div:" + ("rounded" if fr(z) != exact else "exact")
+                  + (":off-grid" if (exact * 2 ** 149).denominator != 1 else ""))
+    reqs.append("rnd64 " + (",".join(q64) or "-"))
+    impl.append(",".join(g64) or "-")
+    reqs.append("rnd32q " + (",".join(q32) or "-"))
+    impl.append(",".join(g32) or "-")
     ctx.correspond("Lean geoRunFl rnd32 == compiled _randomly_rewire_geomodel_I/II/III on arbitrary binary32 "
                    "distances / tolerances (integers in units of a power of two); rnd32 == binary32 subtraction; "
-                   "geoDrawR rnd64 == numpy's floor(u * E) for 53-bit u", reqs, impl)
+                   "geoDrawR rnd64 == numpy's floor(u * E) for 53-bit u; rnd64 / rndQ 24 on off-grid rationals == "
+                   "hardware binary64 / binary32 division, multiplication, CPython int/int", reqs, impl)
 
     # ------------------------------------------------------------------
     # 2. geographical rewiring through the public methods: histories on one object
@@ -1337,21 +1438,87 @@ def run(ctx):
         with contextlib.redirect_stdout(io.StringIO()):
             return f(*a, **k)
 
+    def gen_call(name, f, **kw):
+        """a generator call inside "defined": an exception of the real code is a reported failure, not a
+        crash of the harness"""
+        try:
+            return np.asarray(quiet(f, **kw))
+        except Exception as e:  # noqa
+            ctx.fail({"kind": "model", "generator": name, "invariant": "raises", "error": type(e).__name__},
+                     f"{name}({kw}) raised {e!r}", {"call": name, "kwargs": {k_: (v_ if isinstance(v_, (int, float)) else float(v_)) for k_, v_ in kw.items()}})
+            return None
+
     reqs, impl = [], []
     for c in range(40 * scale):
         N = rng.randrange(2, 14) if rng.random() < 0.9 else rng.randrange(14, 60)
         maxl = N * (N - 1) // 2
         L = rng.choice([0, maxl, rng.randrange(0, maxl + 1)])
-        A = np.asarray(quiet(Network.ErdosRenyi, n_nodes=N, n_links=L))
-        ctx.case(("er", N, L, A.tobytes().hex()), L > 0)
+        with IgraphSpy("Erdos_Renyi") as spy:
+            A = gen_call("ErdosRenyi", Network.ErdosRenyi, n_nodes=N, n_links=L)
         ctx.count("generator:ErdosRenyi(n_links)")
+        if A is None:
+            continue
+        ctx.case(("er", N, L, A.tobytes().hex()), L > 0)
+        # round 5: igraph's contract (simple graph on N nodes with exactly L links) is checked on every
+        # call; the model reads the adjacency matrix out of the graph igraph returned
+        # (theorems generator_adjacency_spec / erdosRenyi_spec)
+        if spy.edges:
+            es = spy.edges[-1]
+            if spy.vcount[-1] != N or len(es) != L or any(a_ == b_ for a_, b_ in es) \
+                    or len({frozenset(e) for e in es}) != len(es):
+                ctx.count("ErdosRenyi:igraph-contract-broken")
+            reqs.append(f"edges {N} {enc_mat(es) if es else '-'}")
+            impl.append(enc_mat(A.reshape(N, N)))
+            # the arguments handed to igraph: exactly (n=n_nodes, m=n_links)
+            reqs.append("ercall 0 1")
+            impl.append("m" if igraph_call(spy.calls[-1], ER_NAMES, ER_DEFAULTS) == {"n": N, "m": L}
+                        else f"other:{spy.calls[-1]}")
+        else:
+            ctx.count("ErdosRenyi:igraph-call-not-observed")
         if not simple_undirected(A) or int(A.sum()) // 2 != L:
             ctx.fail({"kind": "model", "generator": "ErdosRenyi", "invariant": "link-count"},
                      f"ErdosRenyi(n_nodes={N}, n_links={L}) gave {int(A.sum()) // 2} links / not simple",
                      {"n_nodes": N, "n_links": L, "A": A.tolist()})
         p = rng.choice([0.0, 0.3, 1.0])
-        A = np.asarray(quiet(Network.ErdosRenyi, n_nodes=N, link_probability=p))
+        with IgraphSpy("Erdos_Renyi") as spy:
+            A = gen_call("ErdosRenyi", Network.ErdosRenyi, n_nodes=N, link_probability=p)
         ctx.count("generator:ErdosRenyi(p)")
+        if A is None:
+            continue
+        if spy.edges:
+            es = spy.edges[-1]
+            if spy.vcount[-1] != N or any(a_ == b_ for a_, b_ in es) or len({frozenset(e) for e in es}) != len(es):
+                ctx.count("ErdosRenyi:igraph-contract-broken")
+            reqs.append(f"edges {N} {enc_mat(es) if es else '-'}")
+            impl.append(enc_mat(A.reshape(N, N)))
+            reqs.append("ercall 1 0")
+            impl.append("p" if igraph_call(spy.calls[-1], ER_NAMES, ER_DEFAULTS) == {"n": N, "p": p}
+                        else f"other:{spy.calls[-1]}")
+            if p in (0.0, 1.0) and int(A.sum()) // 2 != (0 if p == 0.0 else maxl):
+                ctx.fail({"kind": "model", "generator": "ErdosRenyi", "invariant": "p-extreme"},
+                         f"ErdosRenyi(n_nodes={N}, link_probability={p}) gave {int(A.sum()) // 2} links",
+                         {"n_nodes": N, "p": p, "A": A.tolist()})
+        # the argument dispatch: both or neither argument -> ValueError, never a silent result
+        if c < 8:
+            for hp_, hm_ in [(0, 0), (1, 1), (1, 0), (0, 1)]:
+                kw = {"n_nodes": N}
+                if hp_:
+                    kw["link_probability"] = rng.choice([0.0, 0.5, 1.0])   # 0.0 is "given" (`is not None`)
+                if hm_:
+                    kw["n_links"] = rng.choice([0, L])                      # so is n_links=0
+                try:
+                    quiet(Network.ErdosRenyi, **kw)
+                    out = "p" if hp_ else "m"
+                except ValueError:
+                    out = "raise:ValueError"
+                except Exception as e:  # noqa
+                    out = "raise:" + type(e).__name__
+                reqs.append(f"ercall {hp_} {hm_}")
+                impl.append(out)
+                ctx.count(f"generator:ErdosRenyi:dispatch p={'given' if hp_ else 'None'} m={'given' if hm_ else 'None'} -> {out}")
+                if hp_ == hm_ and out != "raise:ValueError":
+                    ctx.fail({"kind": "model", "generator": "ErdosRenyi", "invariant": "dispatch"},
+                             f"ErdosRenyi({kw}) did not raise ValueError", {"kwargs": {k_: float(v_) for k_, v_ in kw.items()}})
         if not simple_undirected(A):
             ctx.fail({"kind": "model", "generator": "ErdosRenyi", "invariant": "simple"},
                      "ErdosRenyi(p) not simple", {"n_nodes": N, "p": p, "A": A.tolist()})
@@ -1420,8 +1587,24 @@ def run(ctx):
                 ctx.count("generator:Configuration:odd-sum-refused")
         k = rng.randrange(1, 3)
         Nw = rng.randrange(2 * k + 2, 16)
-        A = np.asarray(quiet(Network.WattsStrogatz, N=Nw, k=k, p=rng.choice([0.0, 0.2, 1.0])))
+        with IgraphSpy("Watts_Strogatz") as spy:
+            pw = rng.choice([0.0, 0.2, 1.0])
+            A = gen_call("WattsStrogatz", Network.WattsStrogatz, N=Nw, k=k, p=pw)
         ctx.count("generator:WattsStrogatz")
+        if A is None:
+            continue
+        if spy.edges:
+            es = spy.edges[-1]
+            if spy.vcount[-1] != Nw or len(es) != Nw * k or any(a_ == b_ for a_, b_ in es) \
+                    or len({frozenset(e) for e in es}) != len(es):
+                ctx.count("WattsStrogatz:igraph-contract-broken")
+            reqs.append(f"edges {Nw} {enc_mat(es) if es else '-'}")
+            impl.append(enc_mat(A.reshape(Nw, Nw)))
+            # the oracle below judges the result; a different way of calling igraph is only counted
+            if igraph_call(spy.calls[-1], WS_NAMES, WS_DEFAULTS) != {"dim": 1, "size": Nw, "nei": k, "p": pw}:
+                ctx.count("WattsStrogatz:unexpected igraph arguments")
+        else:
+            ctx.count("WattsStrogatz:igraph-call-not-observed")
         if not simple_undirected(A) or int(A.sum()) // 2 != Nw * k:
             ctx.fail({"kind": "model", "generator": "WattsStrogatz", "invariant": "link-count"},
                      f"WattsStrogatz(N={Nw}, k={k}) gave {int(A.sum()) // 2} links / not simple",
@@ -1555,4 +1738,6 @@ def run(ctx):
         dist_step(net, [])
     ctx.correspond("Lean fromEdges == Network.set_edge_list (directly and as called by randomly_rewire); "
                    "simplified == Network.Configuration / BarabasiAlbert_igraph given the (multi)graph igraph "
-                   "produced; distKernel == set_random_links_by_distance on fresh objects", reqs, impl)
+                   "produced; fromEdges == Network.ErdosRenyi / WattsStrogatz given the graph igraph produced; "
+                   "erdosRenyiCall == the argument dispatch of ErdosRenyi; "
+                   "distKernel == set_random_links_by_distance on fresh objects", reqs, impl)
